@@ -27,7 +27,8 @@ from rules.utilfn import r10_8
 from rules.utilfn import r04_11
 from rules.teddy import r06_6
 from rules.prefilter import r05_2
-RULES = [('R05.4', r05_4), ('R10.5', r10_5), ('R06.4', r06_4), ('R05.9', r05_9), ('R15.4', r15_4), ('R05.8', r05_8), ('R05.7', r05_7), ('R01.1', r01_1), ('R01.2', r01_2), ('R01.3', r01_3), ('R01.4', r01_4), ('R01.5', r01_5), ('R01.6', r01_6), ('R09.1', r09_1), ('R04.5d', r04_5_dfa), ('R05.5', r05_5), ('R05.3', r05_3), ('R02.2', r02_2), ('R04.5r', r04_5_reader), ('R04.4', r04_4), ('R11.1', r11_1), ('R04.5i', r04_5_iter), ('R10.7', r10_7), ('R04.7', r04_7), ('R04.8', r04_8), ('R16.6', r16_6), ('R20.7', r20_7), ('R04.10', r04_10), ('R03.7', r03_7), ('R10.8', r10_8), ('R04.11', r04_11), ('R06.6', r06_6), ('R05.2', r05_2)]
+from rules.agree import r11_3
+RULES = [('R05.4', r05_4), ('R10.5', r10_5), ('R06.4', r06_4), ('R05.9', r05_9), ('R15.4', r15_4), ('R05.8', r05_8), ('R05.7', r05_7), ('R01.1', r01_1), ('R01.2', r01_2), ('R01.3', r01_3), ('R01.4', r01_4), ('R01.5', r01_5), ('R01.6', r01_6), ('R09.1', r09_1), ('R04.5d', r04_5_dfa), ('R05.5', r05_5), ('R05.3', r05_3), ('R02.2', r02_2), ('R04.5r', r04_5_reader), ('R04.4', r04_4), ('R11.1', r11_1), ('R04.5i', r04_5_iter), ('R10.7', r10_7), ('R04.7', r04_7), ('R04.8', r04_8), ('R16.6', r16_6), ('R20.7', r20_7), ('R04.10', r04_10), ('R03.7', r03_7), ('R10.8', r10_8), ('R04.11', r04_11), ('R06.6', r06_6), ('R05.2', r05_2), ('R11.3', r11_3)]
 EXPLANATION = """Mechanism shape only. R01.1 every construction phase of noncontiguous::Compiler::compile runs exactly once on every path to Ok and
 the orderings that matter (with their reasons) hold by dominance. R01.2 in both BFS loops of fill_failure_transitions a match state's
 failure link is set to DEAD exactly under is_leftmost && is_match, and such a state gets neither a computed link nor inherited
